@@ -11,7 +11,7 @@ import json, io
 from .core import use_repo
 use_repo()
 
-from spyne import Application, Service, rpc, srpc, Integer, Unicode, Fault, EventManager, Iterable
+from spyne import Application, Service, rpc, srpc, Integer, Unicode, Fault, EventManager, Iterable, ByteArray
 from spyne.error import (ResourceNotFoundError, InvalidCredentialsError,
                          RequestNotAllowed, RequestTooLongError)
 from spyne.protocol.soap import Soap11, Soap12
@@ -79,13 +79,18 @@ def build(s, log, state):
                 return 'not-an-int'   # unserialisable for the eager XML serialisers
             return a + 1
 
-        @srpc(Integer, _returns=Iterable(Integer), _evmgr=mev)
+        @srpc(Integer, _returns=(ByteArray if fam == 'http' else Iterable(Integer)), _evmgr=mev)
         def g(a):
             log.append(['fn', 'call'])
             raise_outcome(inj['fn'])
             state['fnOk'] = True
-            yield a
-            yield a + 1
+            if fam == 'http':
+                # HttpRpc out: a binary result produced lazily, chunk by chunk
+                yield b'first-chunk-'
+                yield b'second-chunk'
+            else:
+                yield a
+                yield a + 1
 
     inp = PROTS[fam][0](validator='soft')
     outp = PROTS[fam][1]()
